@@ -40,9 +40,24 @@ CHECK = Check(
         "events after the receive",
     ],
     assumptions=[
-        "ValidGraph: ≥1 generation; every model has one cumulative non-decreasing batch count per generation; links "
-        "sorted by source generation; destination generation > source generation; indices in range; the global node "
-        "columns of a link agree with generation start + node-within-generation",
+        "ValidGraph (OW/Sim/Graph.lean; decided by the driver on every generated graph, `invalid-graph` otherwise): ≥1 "
+        "generation; every model has one cumulative non-decreasing batch count per generation; links sorted by source "
+        "generation; destination generation > source generation; indices in range (destVar < nInputs); the global node "
+        "columns of a link agree with generation start + node-within-generation; AND what the Go code needs beyond that "
+        "(where the list-based model would silently read []): model names pairwise different (Go keys `models` by name — "
+        "two entries with one name would share one *modelGeneration between two goroutines); srcVar of every link < "
+        "nOutputs of its source model (number of output variables of the model type, Description().Outputs; Go: index "
+        "out of range in Outputs.Slice); ShapeOk: parameters has one column and states one row per node, a stored inputs "
+        "dataset is [N, nInputs, T]",
+        "nOutputs is not on the SIM protocol line: the driver takes it from the kernel model (number of output series of "
+        "the first node that runs without error, probeNOutputs in OW/Driver/Sim.lean); the generator draws srcVar below "
+        "len(Description().Outputs) of the real model",
+        "WriteData of a generation that never ran (possible only outside the writer protocol) dereferences the nil Outputs "
+        "in Go: modelled as rows carrying the panic class `nil` (crashRow), not as a silent skip; under every "
+        "protocol-respecting schedule the branch is dead (writeData_final)",
+        "atomic `write g`: justified by the footprint theorems run_footprint / links_footprint (the main loop, while "
+        "generation g is written, touches only generation objects of generations > g) + writer_no_conflict + C05 T1; the "
+        "interleaving of the writer's individual reads with the main loop is not itself part of the transition system",
         "an output file is given and written by the process itself (the -outputs split-writer sub-process, -writer mode "
         "and separate -parameters/-initial-states/-input-timeseries/-final-states files are outside the model)",
         "all stored input series have the same length T; a kernel that panics kills the process (out of scope: the "
